@@ -97,8 +97,7 @@ def _polygon(draw, max_w, max_h, pool):
     # target bbox: between 1.2 cells and the available room
     tw = min(draw(_size(pool)), max_w)
     th = min(draw(_size(pool)), max_h)
-    s = min(tw / ext[0], th / ext[1])
-    pts = pts * s
+    pts = pts * np.array([tw / ext[0], th / ext[1]])  # per-axis stretch: bbox = (tw, th) exactly, both >= 0.55 cells
     pts = pts - 0.5 * (pts.max(axis=0) + pts.min(axis=0))
     if draw(st.booleans()):
         pts = pts[::-1]
